@@ -215,7 +215,7 @@ def run_configs(run: Run, modname, cfgs, cosim_cycles=16, procs=None, crash_is_v
         run.configs += 1
         if "refused" in out:
             refused += 1
-            verdict = must_accept(out["cfg"]) if callable(must_accept) else must_accept
+            verdict = must_accept(out["cfg"]) if callable(must_accept) else must_accept      # (runs in the parent process)
             if verdict:
                 # a callable may return a string naming the CLASS of configuration (used as the known-finding key suffix)
                 kf = "accepts_valid_configuration" + (":" + verdict if isinstance(verdict, str) else "")
